@@ -72,9 +72,9 @@ func (s *scriptedConn) Read(b []byte) (int, error) {
 	}
 	return n, nil
 }
-func (s *scriptedConn) Write(b []byte) (int, error)      { return len(b), nil }
-func (s *scriptedConn) Close() error                     { s.closed = true; return nil }
-func (s *scriptedConn) LocalAddr() net.Addr              { return fakeAddr("10.0.0.1:1") }
+func (s *scriptedConn) Write(b []byte) (int, error) { return len(b), nil }
+func (s *scriptedConn) Close() error                { s.closed = true; return nil }
+func (s *scriptedConn) LocalAddr() net.Addr         { return fakeAddr("10.0.0.1:1") }
 func (s *scriptedConn) RemoteAddr() net.Addr {
 	if s.remote != "" {
 		return fakeAddr(s.remote)
